@@ -91,6 +91,15 @@ TWINS = [
     ("schema.dict({...: ...})", "{'zz': ..., ...: ...}"), ("schema.dict({...: ...})", "{'zz': ...}"),
     ("schema.dict({'a': schema.list(schema.int).len(2, ...)})", "{'a': [1, ...]}"),
     ("schema.any(schema.list(schema.int).len(2, ...), schema.dict)", "[1, ...]"), ("schema.any", "..."),
+    # head / tail forms are ANCHORED: a declared element that cannot take its own member (a relaxed dict given a key
+    # it does not declare, a partial dict elsewhere in the value) is a SubstitutionError, never a shifted window
+    ("schema.list([schema.dict({'id': schema.int, 'name': schema.str, ...: ...}), ...])", "[{'id': 1, 'role': 'admin'}, {'id': 2}]"),
+    ("schema.list([..., schema.dict({'id': schema.int, 'name': schema.str, ...: ...})])", "[{'id': 2}, {'id': 1, 'role': 'admin'}]"),
+    ("schema.list([schema.dict({'id': schema.int, 'name': schema.str, ...: ...}), ...])", "[{'id': 1}, {'id': 2, 'name': 'x'}]"),
+    ("schema.list([schema.dict({'id': schema.int, ...: ...}), schema.dict({'id': schema.int, ...: ...}), ...])", "[{'id': 1}, {'id': 2, 'zz': 0}, {'id': 3}]"),
+    ("schema.list([..., schema.dict({'a': schema.int, 'b': schema.int})])", "[{'a': 1}, {'a': 1, 'b': 2}, {'a': 3}]"),
+    ("schema.list([schema.dict({'a': schema.int, 'b': schema.int}), ...])", "[{'a': 3}, {'a': 1, 'b': 2}, {'a': 1}]"),
+    ("schema.list([schema.list([schema.int, ...]), ...])", "[[], [1]]"), ("schema.list([..., schema.list([schema.int, ...])])", "[[1], []]"),
 ]
 
 
